@@ -173,9 +173,11 @@ func (a *agg) allocViolation(cs json.RawMessage, bin []byte, ops []string, combo
 }
 
 var (
-	reCtl   = regexp.MustCompile(`C03-PROBE control-done ms=([0-9.]+)`)
-	reAbort = regexp.MustCompile(`C03-ABORT kind=(\w+) phase=(\w*) ?([^\n]*)`)
-	rePhase = regexp.MustCompile(`(?m)^C03@ (\w+) ([^\n]*)$`)
+	reOOMBlock = regexp.MustCompile(`cannot allocate (\d+)-byte block`)
+	reMallocgc = regexp.MustCompile(`runtime\.mallocgc\(0x([0-9a-f]+)`)
+	reCtl      = regexp.MustCompile(`C03-PROBE control-done ms=([0-9.]+)`)
+	reAbort    = regexp.MustCompile(`C03-ABORT kind=(\w+) phase=(\w*) ?([^\n]*)`)
+	rePhase    = regexp.MustCompile(`(?m)^C03@ (\w+) ([^\n]*)$`)
 )
 
 func readTail(path string, n int64) []byte {
@@ -227,11 +229,18 @@ func (a *agg) crash(cs json.RawMessage, cr *core.Crash) {
 		// a guest that keeps running after its context is done is C07's subject
 		c.Inconclusive("exec-no-return-after-deadline")
 		c.Distinct("exec_no_return", combo)
+		if ic.K == "seed" {
+			c.Distinct("exec_no_return_unmutated_seeds", a.seeds[ic.I].Name)
+		}
 	case cr.Kind == "timeout":
 		c.Inconclusive("batch-watchdog")
 	case oom && phase == "compile":
 		a.allocViolation(cs, bin, ops, combo, fmt.Sprintf("child died during the compile with RLIMIT_AS=%d: %s", uint64(rlimitAS), cr.Detail), "")
 	case oom && phase == "exec":
+		// A guest can legitimately use a lot of memory (deep recursion of a function with
+		// tens of thousands of locals, ...) and the 4 GiB address-space cap is ours: only a
+		// single allocation request that could never fit (>= 2 GiB for one block) counts as
+		// a fault of the runtime; cumulative exhaustion under the cap is inconclusive.
 		what := "other"
 		if w := Walk(bin); w.Hdr {
 			for i := range w.Sites {
@@ -240,8 +249,21 @@ func (a *agg) crash(cs json.RawMessage, cr *core.Crash) {
 				}
 			}
 		}
-		a.violate("exec:out-of-memory:"+what, "child died of memory exhaustion while running an accepted module ("+combo+"): "+cr.Detail,
-			func() map[string]any { return witness(cs, bin, ops, map[string]any{"combo": combo, "crash": cr}) })
+		var block uint64
+		if m := reOOMBlock.FindSubmatch(log); m != nil {
+			block, _ = strconv.ParseUint(string(m[1]), 10, 64)
+		} else if m := reMallocgc.FindSubmatch(log); m != nil {
+			block, _ = strconv.ParseUint(string(m[1]), 16, 64)
+		}
+		if block < 2<<30 {
+			c.Inconclusive("exec-memory-exhaustion-under-rlimit")
+			c.Distinct("exec_memory_exhaustion", fmt.Sprintf("%s %s block=%d", what, combo, block))
+			break
+		}
+		a.violate("exec:out-of-memory:single-allocation:"+what, fmt.Sprintf("child died while running an accepted module (%s): the runtime requested one block of %d bytes: %s", combo, block, cr.Detail),
+			func() map[string]any {
+				return witness(cs, bin, ops, map[string]any{"combo": combo, "crash": cr, "block_bytes": block})
+			})
 	default:
 		p := phase
 		if p == "" {
